@@ -8,7 +8,7 @@ rm -rf "$dir"; git -C /repo worktree prune
 git -C /repo worktree add --detach -q "$dir" HEAD || exit 3
 # generated test code is git-ignored: take it from /repo's working tree
 (cd /repo && find internal/tests -name '*_generated.go' | while read f; do cp "$f" "$dir/$f"; done)
-if ! git -C "$dir" apply /tmp/seed/$id.out/patch.diff; then echo "PATCH DOES NOT APPLY"; exit 3; fi
+if ! git -C "$dir" apply /tmp/seed/$id.${SEED_SUFFIX:-out}/patch.diff; then echo "PATCH DOES NOT APPLY"; exit 3; fi
 echo "patch: $(git -C "$dir" diff --stat | tail -1)"
 (cd "$dir" && go build ./... 2>&1 | tail -3 && go test -vet=off -count=1 ./... 2>&1 | grep -v "no test files" | grep -v "^ok" | tail -8; echo "suite exit: done")
 echo "worktree kept at $dir (remove with: git -C /repo worktree remove --force $dir)"
